@@ -680,3 +680,128 @@ class C31(Spec):
 
     def sample(self, case, res):
         return {'seed': case['seed'], 'cfg': case['cfg'], 'history': case['prog']['ops'], 'init': case['prog']['init']}
+
+
+from .families import randfam  # noqa: E402
+from .runner import Result as _Result  # noqa: E402
+
+
+@_register
+class C33(Spec):
+    check_id = 'C33'
+    family = 'rand'
+    title = 'secure random functions stay in range and are uniform'
+    technique = ('deterministic simulation; (a) seeded runs checked against range/shape invariants, (b) exhaustive '
+                 'enumeration of the secret random bits through a random_bits seam: exact outcome masses vs 1/N')
+    quick = {'runs': 1500, 'wall': 85}
+    thorough = {'runs': 200000, 'wall': 900}
+    level_text = ('(a) seeded search for range/shape violations; (b) for small parameters an exhaustive sweep of the '
+                  'random-bit strings up to depth D gives exact lower/upper bounds on every outcome probability, which must '
+                  'bracket the documented probability; sampling for (a), bounded exhaustive for (b)')
+    rule = ('seeds below the number of uniformity cases run one bit-tree enumeration each (every node = one simulated '
+            'm-party run with the bit string fed to random_bits); the rest = one seeded run of a random mpyc.random call; '
+            'non-trivial = m>=2 and bytes exchanged')
+
+    def _cases(self, tier):
+        return randfam.UNIFORM_CASES_QUICK if tier == 'quick' else randfam.UNIFORM_CASES_THOROUGH
+
+    def make_case(self, seed, tier):
+        rng = random.Random(f'C33/{seed}')
+        i = seed % 1000003
+        cases = self._cases(tier)
+        if i < len(cases):
+            fn, args, N = cases[i]
+            m = rng.choice((2, 3))
+            cfg = sample_cfg(rng, tier, m_min=m, m_max=m)
+            td = {'kind': 'int', 'l': 16}
+            return {'family': 'rand', 'cfg': cfg.to_json(), 'seed': seed, 'uniform': {'N': N, 'D': 10 if tier == 'quick' else 14},
+                    'prog': {'family': 'rand', 'type': td, 'fn': fn, 'args': args, 'feed': ''},
+                    'strategy': {'sched': 'canonical', 'deliver': 'eager'}}
+        cfg = sample_cfg(rng, tier)
+        prog = randfam.gen(rng, cfg, tier)
+        return {'family': 'rand', 'cfg': cfg.to_json(), 'prog': prog, 'seed': seed}
+
+    def monitors(self, case):
+        return [randfam.FeedMonitor()]
+
+    def execute(self, case):
+        if not case.get('uniform'):
+            return run_case(case, monitors=self.monitors(case))
+        return self._enumerate(case)
+
+    def _enumerate(self, case):
+        from fractions import Fraction as Fr
+        N, D = case['uniform']['N'], case['uniform']['D']
+        mass = {}
+        unterminated = Fr(0)
+        frontier = ['']
+        nodes = 0
+        res = _Result()
+        res.outcome = 'ok'
+        res.tape = []
+        total = _Result()
+        while frontier:
+            s = frontier.pop()
+            c = dict(case, prog=dict(case['prog'], feed=s))
+            c.pop('uniform')
+            r = run_case(c, monitors=self.monitors(c))
+            nodes += 1
+            res.steps += r.steps
+            res.bytes += r.bytes
+            res.sim_time += r.sim_time
+            if r.harness_error:
+                res.harness_error = r.harness_error
+                return res
+            if r.violations:
+                res.violations = [(v[0], f'[feed {s!r}] ' + v[1]) for v in r.violations]
+                return res
+            p0 = r.results[0]
+            if p0['exhausted']:
+                if len(s) >= D:
+                    unterminated += Fr(1, 1 << len(s))
+                else:
+                    frontier.append(s + '1')
+                    frontier.append(s + '0')
+                continue
+            if p0['consumed'] != len(s):
+                res.harness_error = f'enumeration: run with feed {s!r} consumed {p0["consumed"]} bits'
+                return res
+            k = randfam.outcome_key(p0['out'])
+            mass[k] = mass.get(k, Fr(0)) + Fr(1, 1 << len(s))
+        a = case['prog']['args']
+        if N is None:      # weighted choices: expected = weight / total
+            ws = a['weights']
+            tot = sum(ws)
+            expect = {}
+            for v, w_ in zip(a['seq'], ws):
+                key = randfam.outcome_key([v])
+                expect[key] = expect.get(key, Fr(0)) + Fr(w_, tot)
+        else:
+            expect = None
+        outcomes = set(mass)
+        if expect is None and len(outcomes) > N:
+            res.violations.append(('invariant:uniformity', f'{case["prog"]["fn"]}{a}: {len(outcomes)} distinct outcomes, documented {N}'))
+        for k in sorted(outcomes | set(expect or ())):
+            lo = mass.get(k, Fr(0))
+            hi = lo + unterminated
+            want = expect[k] if expect is not None else Fr(1, N)
+            if not (lo <= want <= hi):
+                res.violations.append(('invariant:uniformity',
+                                       f'{case["prog"]["fn"]}{a}: outcome {k} has probability in [{lo}, {hi}] '
+                                       f'(exact enumeration of random bits to depth {D}), documented {want}'))
+                break
+        if expect is None and len(outcomes) < N and unterminated < Fr(1, N):
+            res.violations.append(('invariant:uniformity', f'{case["prog"]["fn"]}{a}: only {len(outcomes)} of {N} outcomes reachable'))
+        res.results = [{'nodes': nodes, 'outcomes': len(outcomes), 'unterminated_mass': str(unterminated)}]
+        res.info['probes'] = {'uniformity_trees': 1, 'tree_nodes': nodes, 'tree_outcomes': len(outcomes)}
+        res.strategy = {'sched': 'canonical', 'deliver': 'eager'}
+        return res
+
+    def sample(self, case, res):
+        if case.get('uniform'):
+            return {'seed': case['seed'], 'uniformity_case': [case['prog']['fn'], case['prog']['args']], 'result': res.results}
+        return {'seed': case['seed'], 'cfg': case['cfg'], 'call': [case['prog']['fn'], case['prog']['args'], case['prog']['type']],
+                'results': repr(res.results)[:200]}
+
+    def nontrivial(self, case, res):
+        return res.bytes > 0
